@@ -2,8 +2,10 @@
 (***************************************************************************)
 (* C13: every read is confined to the requested time window and signal.    *)
 (*                                                                         *)
-(* Time is in ticks of 30 minutes over three days (day = 48 ticks; the     *)
-(* concrete binding uses Nov 29, Nov 30, Dec 1: a month boundary).  A      *)
+(* Time is in ticks of 15 minutes over three days (day = 96 ticks, the      *)
+(* 30 min safety margin of FormatFromDate = 2 ticks, so that instants      *)
+(* inside the margin exist; the concrete binding uses Nov 29, Nov 30,      *)
+(* Dec 1: a month boundary).  A                                            *)
 (* request asks for the window [from, to) (or [from, to] for APIs whose    *)
 (* end is inclusive) of one signal.  A SCAN DESCRIPTOR says how one        *)
 (* statement of the reader restricts one base table:                       *)
@@ -42,8 +44,8 @@ EXTENDS Integers, FiniteSets, TLC
 CONSTANTS
     DescSeq,    \* sequence of descriptor records
     Ticks,      \* row timestamps and window ends
-    DayTicks,   \* 48
-    Margin,     \* 1 tick = 30 min (FormatFromDate's safety margin)
+    DayTicks,   \* 96
+    Margin,     \* 2 ticks = 30 min (FormatFromDate's safety margin)
     QSec, Q15, QBucket,  \* abstract sizes of the widening quanta (second, 15 s, range bucket), in ticks
     Zones,      \* zone offsets of reader / writer processes, in ticks
     Types       \* signal types of rows: 0 (legacy "both"), 1 logs, 2 metrics
